@@ -118,20 +118,24 @@ SIGNATURE = {          # consistently typed: atomic features and complex feature
     "SUBJ": {"agr": "AGR", "case": "atom"},
 }
 ATOMS = ["sg", "pl", "x3"]
+FALSY_ATOMS = [0, "", 1]        # legal atomic values that are falsy (only None means "unspecified")
 
 
 @st.composite
-def fs_desc(draw, share=True):
+def fs_desc(draw, share=True, falsy=None):
     """a consistently typed structure (node list); re-entrancy by pointing two same-typed features at one node"""
     nodes = [{"value": None, "content": {}}]
     pool = {"atom": [], "AGR": [], "SUBJ": []}
+    if falsy is None:
+        falsy = draw(st.sampled_from([0, 0, 0, 1])) == 1
+    atoms = FALSY_ATOMS if falsy else ATOMS
 
     def make(typ, depth):
         if share and pool[typ] and draw(st.integers(0, 3)) == 0:
             return draw(st.sampled_from(pool[typ]))
         idx = len(nodes)
         if typ == "atom":
-            v = draw(st.sampled_from(ATOMS + [None]))
+            v = draw(st.sampled_from(atoms + [None]))
             nodes.append({"value": v, "content": {}})
         else:
             nodes.append({"value": None, "content": {}})
@@ -166,6 +170,8 @@ def fs_to_text(desc):
                     return None
                 parts.append("%s=[%s]" % (f, inner))
             elif c["value"] is not None:
+                if not isinstance(c["value"], str) or not c["value"]:
+                    return None    # only non-empty strings can be written in the text form
                 parts.append("%s=%s" % (f, c["value"]))
             else:
                 return None        # an unspecified atomic feature has no plain text form
@@ -250,6 +256,42 @@ def fcfg_text(d, alternatives=False):
         bt = " ".join((b[1] + _feat_text(b[2])) if b[0] == "V" else b[1] for b in body) or "$"
         lines.append("%s%s -> %s" % (h, _feat_text(hf), bt))
     return "\n".join(lines)
+
+
+VALUE_MAPS = {"text": {"u": "u", "v": "v"}, "falsy": {"u": 0, "v": 1}, "empty": {"u": "", "v": "x"},
+              "int_str": {"u": 1, "v": "1"}}
+
+
+def build_lib_fcfg_api(d, valmap):
+    """the grammar built through the constructors (FeatureProduction / FeatureStructure), the abstract values u, v
+    replaced by valmap's values; a feature variable is one FeatureStructure object shared inside the production"""
+    from pyformlang.cfg import Variable, Terminal
+    from pyformlang.fcfg import FCFG, FeatureStructure, FeatureProduction
+    prods = []
+    for h, hf, body in d["prods"]:
+        shared = {}
+
+        def fs_of(fd):
+            fs = FeatureStructure()
+            for f, v in sorted(fd.items()):
+                if v.startswith("?"):
+                    if v not in shared:
+                        shared[v] = FeatureStructure()
+                    fs.add_content(f, shared[v])
+                else:
+                    fs.add_content(f, FeatureStructure(valmap[v]))
+            return fs
+        head_fs = fs_of(hf)
+        lib_body, body_fs = [], []
+        for b in body:
+            if b[0] == "V":
+                lib_body.append(Variable(b[1]))
+                body_fs.append(fs_of(b[2]))
+            else:
+                lib_body.append(Terminal(b[1]))
+                body_fs.append(FeatureStructure())
+        prods.append(FeatureProduction(Variable(h), lib_body, head_fs, body_fs))
+    return FCFG(start_symbol=Variable(d["start"]), productions=prods)
 
 
 def skeleton(d):
